@@ -23,6 +23,9 @@ struct Unit {
     name: String,
     #[serde(default)]
     prelude: Vec<String>,
+    /// names switched on for `//#if NAME` / `//#else` / `//#endif` blocks of the prelude files
+    #[serde(default)]
+    defines: Vec<String>,
     #[serde(default)]
     code_header: String,
     #[serde(default)]
@@ -557,6 +560,26 @@ fn emit_fn(parts: FnParts, sel: &FuncSel, with_pub: bool, indent: usize, dropped
     s
 }
 
+/// `//#if NAME` / `//#else` / `//#endif` line blocks (no nesting) in prelude (specification) files
+fn preprocess(text: &str, defines: &[String]) -> String {
+    let mut out = String::new();
+    let mut keep = true;
+    for l in text.lines() {
+        let t = l.trim();
+        if let Some(n) = t.strip_prefix("//#if ") {
+            keep = defines.iter().any(|d| d == n.trim());
+        } else if t == "//#else" {
+            keep = !keep;
+        } else if t == "//#endif" {
+            keep = true;
+        } else if keep {
+            out.push_str(l);
+            out.push('\n');
+        }
+    }
+    out
+}
+
 fn cmd_extract(args: &BTreeMap<String, String>) {
     let repo = PathBuf::from(args.get("repo").unwrap_or_else(|| die(4, "missing --repo".into())));
     let unit_path = PathBuf::from(args.get("unit").unwrap_or_else(|| die(4, "missing --unit".into())));
@@ -575,6 +598,7 @@ fn cmd_extract(args: &BTreeMap<String, String>) {
         let pp = specdir.join(p);
         let t = std::fs::read_to_string(&pp).unwrap_or_else(|e| die(4, format!("{}: {}", pp.display(), e)));
         let _ = writeln!(out, "// ---- prelude {} ----", p);
+        let t = preprocess(&t, &unit.defines);
         out.push_str(&t);
         out.push('\n');
     }
@@ -723,12 +747,27 @@ fn cmd_inject(args: &BTreeMap<String, String>) {
         }
     }
     copy_dir(&harness, &krate.join("src").join("verif_kani"));
+    // harnesses for PRIVATE functions: `in_<module>.rs` is mounted as a child module of
+    // src/<module>.rs (`#[cfg(kani)] #[path = "verif_kani/in_<module>.rs"] mod verif_in;`), so it
+    // sees the private items of that module through `use super::*`
+    let mut mounted = vec![];
+    for e in std::fs::read_dir(&harness).unwrap() {
+        let name = e.unwrap().file_name().to_string_lossy().to_string();
+        if let Some(m) = name.strip_prefix("in_").and_then(|n| n.strip_suffix(".rs")) {
+            let target = krate.join("src").join(format!("{}.rs", m));
+            let mut t = std::fs::read_to_string(&target)
+                .unwrap_or_else(|e| die(3, format!("lost anchor: {}: {}", target.display(), e)));
+            t.push_str(&format!("\n#[cfg(kani)]\n#[path = \"verif_kani/{}\"]\nmod verif_in;\n", name));
+            std::fs::write(&target, t).unwrap();
+            mounted.push(serde_json::json!({"module": m, "file": name}));
+        }
+    }
     let lib = krate.join("src").join("lib.rs");
     let mut t = std::fs::read_to_string(&lib).unwrap_or_else(|e| die(3, format!("lost anchor: {}: {}", lib.display(), e)));
     t.push_str("\n#[cfg(kani)]\nmod verif_kani;\n");
     std::fs::write(&lib, t).unwrap();
     if let Some(r) = args.get("report") {
-        std::fs::write(r, serde_json::to_string_pretty(&serde_json::json!({"contracts": report})).unwrap()).unwrap();
+        std::fs::write(r, serde_json::to_string_pretty(&serde_json::json!({"contracts": report, "mounted": mounted})).unwrap()).unwrap();
     }
 }
 
